@@ -8,6 +8,7 @@ fn main() {
     let mode = args.get(1).map(|s| s.as_str()).unwrap_or("");
     match mode {
         "layout" => pure::layout(),
+        "decode" => pure::decode(),
         _ => {
             eprintln!("usage: tbv-harness <layout|...>");
             std::process::exit(2);
